@@ -1047,7 +1047,12 @@ def synth_fn(key, rec, impls, ctx, table, by_mod):
         if m == mod and re.sub(r"<.*", "", compact(im["self_ty_text"])) == tyname and compact(im.get("trait", "")) == trait:
             host = (src, im)
     if host is None:
-        die("overlay: %s: no `impl %s for %s` to host the synthesized default" % (key, trait, tyname))
+        # the impl is not visible in the source text any more (e.g. generated by a macro): the functions of this type
+        # that the overlay knows cannot be extracted -> undecided for the properties they carry, not for every property
+        table[key] = {"key": key, "file": "", "span": [0, 0], "mode": "undecided", "vis": "", "sha256": "", "line": 0, "module": "",
+                      "reason": "no `impl %s for %s` in the source text to host the synthesized default" % (trait, tyname),
+                      "clauses": [], "all_tags": sorted(set(t for s_ in rec.sections for t in s_.tags)), "rewrites": [], "nopanic": [], "sites": {}}
+        return
     src, im = host
     sig, body = CORE_DEFAULTS[fname]
     ret = rec.attrs.get("ret")
@@ -1187,7 +1192,8 @@ def generate(outdir, stub=None, probe=False, nohints=None):
         table[fn.key] = entry
         # names this body calls (methods and path tails): lets the verdict see which functions lean on a function without contract
         entry["callees"] = sorted(set([x["method"] for x in walk_tree(fn.node["tree"]) if x["k"] == "MethodCall"]
-                                      + [compact(x["func_text"]).split("::")[-1] for x in walk_tree(fn.node["tree"]) if x["k"] == "Call"]))
+                                      + [compact(x["func_text"]).split("::")[-1] for x in walk_tree(fn.node["tree"]) if x["k"] == "Call"]
+                                      + [compact(x.get("text", "")).split("::")[-1] for x in walk_tree(fn.node["tree"]) if x["k"] == "Path" and "::" in x.get("text", "")]))
         entry["trait_impl"] = bool(fn.impl is not None and fn.impl.get("trait"))
         if mode == "skip":
             entry["reason"] = rec.attrs.get("reason", "")
@@ -1279,7 +1285,13 @@ def generate(outdir, stub=None, probe=False, nohints=None):
         if not rec.used and rec.attrs.get("optional"):
             continue    # contract kept ready for a function the source may introduce (overrides of std defaults)
         if not rec.used:
-            die("overlay: no such function in the source: %s (%s)" % (k, rec.origin))
+            # a function the overlay has a contract for is no longer in the source text (removed, renamed, or now
+            # generated by a macro): nothing can be extracted for it -> undecided for the properties it carries.
+            # Functions that call it do not compile in the generated input and become undecided one by one.
+            table[k] = {"key": k, "file": "", "span": [0, 0], "mode": "undecided", "vis": "", "sha256": "", "line": 0, "module": "",
+                        "reason": "the function is no longer in the source text (removed, renamed or macro-generated)",
+                        "clauses": [], "all_tags": sorted(set(t for s_ in rec.sections for t in s_.tags) | set(x.strip() for x in rec.attrs.get("nopanic", "").split(",") if x.strip())),
+                        "rewrites": [], "nopanic": [], "sites": {}}
 
     # ---- assemble
     out = []
